@@ -120,8 +120,9 @@ void expr_t::parse(std::istream& in, const parse_flags_t& flags,
 
 void expr_t::compile(scope_t& scope)
 {
-  if (! compiled && ptr) {
-    ptr = ptr->compile(scope);
+  if (! compiled) {
+    if (ptr)
+      ptr = ptr->compile(scope);
     base_type::compile(scope);
   }
 }
